@@ -15,6 +15,7 @@ import (
 	"strconv"
 	"strings"
 	"sync"
+	"sync/atomic"
 	"syscall"
 	"time"
 )
@@ -84,6 +85,28 @@ func (s *sinkT) waitLines(pred func([]string) bool, d time.Duration) bool {
 		}
 		time.Sleep(5 * time.Millisecond)
 	}
+}
+
+var portCursor int32 = 0
+
+// reservedPort hands out ports below the kernel's ephemeral range (so that no sender socket can take
+// the collector's port while it is down between two cycles), probed free for UDP and TCP.
+func reservedPort() int {
+	for try := 0; try < 4000; try++ {
+		p := 20000 + int(atomic.AddInt32(&portCursor, 1))%9000 + (os.Getpid()%7)*13
+		u, err := net.ListenUDP("udp", &net.UDPAddr{Port: p})
+		if err != nil {
+			continue
+		}
+		t, err2 := net.Listen("tcp", fmt.Sprintf(":%d", p))
+		u.Close()
+		if err2 != nil {
+			continue
+		}
+		t.Close()
+		return p
+	}
+	return freeUDPPort()
 }
 
 func freeUDPPort() int {
